@@ -40,7 +40,23 @@ def install(E):
         for (t2, a2) in lst:
             if a2.eq(arg): continue
             e.P.solver.add(z3.Implies(t2 == term, a2 == arg))
+            # equal concatenations of parts with pairwise equal known lengths have equal parts
+            if z3.is_app(arg) and arg.sort() == Str:
+                p1, p2 = flatten(e, arg), flatten(e, a2)
+                if p1 and p2 and len(p1) == len(p2) and len(p1) > 1 and all(x[1] == y[1] for x, y in zip(p1, p2)):
+                    e.P.solver.add(z3.Implies(a2 == arg, z3.And([x[0] == y[0] for x, y in zip(p1, p2)])))
         lst.append((term, arg))
+    def flatten(e, t):
+        out = []
+        stack = [t]
+        while stack:
+            x = stack.pop()
+            if is_app_of(x, 'sconcat'):
+                stack.append(x.arg(1)); stack.append(x.arg(0)); continue
+            k = e.known_len(x)
+            if k is None: return None
+            out.append((x, k))
+        return out
     E.inj = inj
 
     # group operations: ring arithmetic over Z ('alg', needed for the BDHKE/DLEQ identities of C10) or
@@ -74,6 +90,12 @@ def install(E):
         if getattr(e, 'crypto_mode', 'alg') == 'alg': return x + y
         return z3.Function('sadd', IntS, IntS, IntS)(x, y)
     E.pubof = pubof
+
+    # truncated hashes used as identifiers (keyset ids: first 14 hex characters of a sha256): assumed collision free
+    def ssub_hook(e, t, base, lo, hi):
+        if lo == 0 and hi is not None and hi >= 14 and is_app_of(base, 'hexenc') and is_app_of(base.arg(0), 'sha256'):
+            inj(e, 'idprefix%d' % hi, t, base.arg(0).arg(0))
+    E.ssub_hook = ssub_hook
 
     # ---- sha256
     def sum256(e, a):
@@ -218,7 +240,15 @@ def install(E):
     def derive(e, a):
         k = e.peek(a[0]).val
         idx = a[1]
-        return (mkx(hd_derive(k, z3.BitVecVal(idx, 32) if isinstance(idx, int) else idx)), None)
+        ix = z3.BitVecVal(idx, 32) if isinstance(idx, int) else idx
+        t = hd_derive(k, ix)
+        # stated assumption: BIP-32 derivation has no collisions (distinct parent or index => distinct child, distinct keys)
+        lst = e.P.g.setdefault('hdder', [])
+        if not any(t.eq(x[0]) for x in lst):
+            for (t2, k2, i2) in lst:
+                e.P.solver.add(z3.Implies(t == t2, z3.And(k == k2, ix == i2)), z3.Implies(hd_priv(t) == hd_priv(t2), t == t2))
+            lst.append((t, k, ix))
+        return (mkx(t), None)
     I['(*%sExtendedKey).Derive' % HD] = derive
     I['(*%sExtendedKey).ECPrivKey' % HD] = lambda e, a: (mkpriv(hd_priv(e.peek(a[0]).val)), None)
     I['(*%sExtendedKey).ECPubKey' % HD] = lambda e, a: (mkpk(pubof(e, hd_priv(e.peek(a[0]).val))), None)
